@@ -1103,6 +1103,13 @@ def templatesize(ctx):
     V = [root_local(fa, a) for a in st["args"][:2]]
     if None in V or V[0] == V[1]:
         raise EngineError("TEMPLATESIZE: the two id lists passed to RawConnectorBuilder::new are not two locals")
+    # every local a list argument is computed from (the list may be built in an expanded helper and
+    # come back inside a tuple / Result)
+    VS = [set(), set()]
+    for k_ in (0, 1):
+        back_slice(fa, st["args"][k_], lambda b, t: None, VS[k_])
+    both = VS[0] & VS[1]
+    VS = [VS[0] - both, VS[1] - both]
     calls = []
 
     def term(b, t):
@@ -1117,11 +1124,12 @@ def templatesize(ctx):
         x = table_var(fa, t["args"][0])
         feeds_max = any(any((fa.origin(a)[0] == "call" and fa.origin(a)[1] == b) for a in mt["args"]) for mb, mt in max_calls)
         counted[x] = counted.get(x, False) or feeds_max
-    lists_in_slice = {table_var(fa, a) for b, t in calls for a in t["args"]} & set(V)
-    pushes = [(b, t) for b, t in fa.calls() if cname(t) == "push" and len(t["args"]) == 2 and table_var(fa, t["args"][0]) in V]
+    lists_in_slice = {table_var(fa, a) for b, t in calls for a in t["args"]} & (VS[0] | VS[1])
+    pushes = [(b, t) for b, t in fa.calls() if cname(t) == "push" and len(t["args"]) == 2
+              and table_var(fa, t["args"][0]) in (VS[0] | VS[1])]
     ctx.floor("TEMPLATESIZE", "rows pushed onto the two id lists", len(pushes), 2)
     for b, t in pushes:
-        side = "right" if table_var(fa, t["args"][0]) == V[0] else "left"
+        side = "right" if table_var(fa, t["args"][0]) in VS[0] else "left"
         x = table_var(fa, t["args"][1])
         key = "%s|%s-rows-counted" % (p, side)
         if x in counted:
